@@ -16,7 +16,7 @@ TECH.update({
 })
 TECH["C02"]="rapid property-based testing of the emitted Go server and of the emitted TypeScript server (in Node) with raw HTTP requests; oracle = independent reference request binder (URL + body -> expected message or 400)"
 TECH["C09"]="rapid property-based testing of the emitted Go server and of the emitted TypeScript server (in Node) with raw HTTP: header value sets vs an independent reference header validator and merge semantics"
-TECH["C10"]="rapid property-based testing through the generated Go client (error source x error hook x content type), of the emitted TypeScript client with canned replies, and of URL-binding violations with raw HTTP, against the documented error contract"
+TECH["C10"]="rapid property-based testing through the generated Go client (error source x error hook x content type), of the emitted TypeScript client with canned replies, of the emitted TypeScript server's error surface over raw HTTP, and of URL-binding violations with raw HTTP, against the documented error contract"
 TECH["C11"]="rapid structure-aware mutation fuzzing of request bodies against the emitted Go server, of responses against the emitted Go and TypeScript clients, and body-read faults; oracles: clean 200/400, no dispatch of undecodable bodies, no panic/hang"
 TECH["C17"]="rapid-generated call multisets executed concurrently under the race detector; oracle = race report + per-call equality with isolated execution"
 TECH["C20"]="rapid property-based testing of the emitted mock server: build/vet oracle plus response decode/example-membership oracles"
@@ -39,15 +39,15 @@ TEXT.update({
  "C13":("Every emitted package (go-http only, go-client only, both; with and without mock) is built and vetted with the analyzers go test runs; every emitted .ts module is imported in Node 22. Exploration over a compile matrix of annotation x cardinality x naming, half of the schemas being minimal single-construct files (what a rich file masks), with free-text values containing quotes, backslashes and line breaks.","§5 C13"),
 })
 TEXT["C02"]=("For every RPC with URL-bound fields rapid draws request lines (valid / invalid / grey URL values per kind, encodings, missing parameters) x bodies x content types; the handler-visible request or the 400 ValidationError is compared with a reference binder written from the documented contract. Exploration with value shrinking.","§5 C02")
-TEXT["C09"]=("For every RPC with declared headers rapid draws header value sets (absent, empty, must-accept, must-reject, grey per type/format) and body validity; dispatch / 400-with-one-violation-per-offender is judged by a reference validator H. Exploration with shrinking.","§5 C09")
-TEXT["C10"]=("rapid draws an error source, a hook behaviour and a content type per call; status, headers, body (decoded in the request's content type) and the Go client's error value are compared with the documented contract; violation paths come from running the reference validator on the same request. Exploration.","§5 C10")
+TEXT["C09"]=("For every RPC with declared headers rapid draws header value sets (absent, empty, must-accept, must-reject, grey per type/format) and body validity; dispatch / 400-with-one-violation-per-offender is judged by a reference validator H; one request in five is written from the published OpenAPI header parameters alone and must be dispatched. Exploration with shrinking.","§5 C09")
+TEXT["C10"]=("rapid draws an error source, a hook behaviour and a content type per call; status, headers, body (decoded in the request's content type) and the Go client's error value are compared with the documented contract; violation paths come from running the reference validator on the same request (field- and message-level rules); the TypeScript server is driven with handler errors, handler ValidationErrors, missing headers and an onError hook. Exploration.","§5 C10")
 TEXT["C11"]=("Valid model-encoded bodies are mutated (wrong type per field at depth, truncation, trailing data, top-level scalars, deep nesting, invalid UTF-8, duplicate keys, random and truncated wire data) under many content types; server verdicts must be 200 or a well-formed 400 and invalid-in-every-form bodies are never dispatched. The Go client is fed arbitrary status/content-type/body combinations. Exploration; bytes-level coverage guidance is not used.","§5 C11")
 TEXT["C17"]=("Random multisets of 10-80 calls over all routes run at parallelism 1-32 through shared generated clients and one shared generated server in a -race build; each call's result is compared with the same call issued alone; a second group runs the emitted mock implementation behind the generated server under concurrent calls (status as alone, no race report). Schedules are sampled, not enumerated: the weakest claim of the set.","§5 C17")
 TEXT["C20"]=("Schemas are generated with generate_mock=true; the package must build and vet, the mock-backed generated server must answer valid requests with 200 and a body that decodes to the response type in its documented JSON form, and fields with examples must hold a parsable example. Exploration on the sub-domain the mock generator compiles for; the rest is pinned as known findings.","§5 C20")
 TEXT["C18"]=("Every emitted document of rapid-drawn schemas is parsed with parsers the plugin does not use and checked for the listed structural invariants under all four format settings; YAML and JSON renderings are compared as trees. Exploration.","§5 C18")
 TEXT["C19"]=("For each rule-carrying field probes at and around every bound are encoded with the reference model and judged both by the reference rule semantics and by jsonschema against the published property schema; any disagreement is a violation. Exploration with boundary-directed probes.","§5 C19")
-TEXT["C06"]=("Request bodies sent by the generated Go client, response bodies of the generated Go server (200 / 400 / default) and the path, query and header values as sent are validated with jsonschema against the schemas the service's OpenAPI document publishes for that operation, and walked for properties no subschema describes; the default value of every request/response type must satisfy its component schema. Exploration.","§5 C06")
-TEXT["C03"]=("For rapid-drawn route shapes every RPC is exercised with all URL-bound fields non-default; the Go client's and the TS client's concrete request lines, the Go server's routing decision, the TS server's route table and the OpenAPI operation are compared pairwise. Exploration.","§5 C03")
+TEXT["C06"]=("Request bodies sent by the generated Go client, response bodies of the generated Go server (200 / 400 incl. requests refused by their buf.validate rules / default) and the path, query and header values as sent are validated with jsonschema against the schemas the service's OpenAPI document publishes for that operation, and walked for properties no subschema describes; the default value of every request/response type must satisfy its component schema. Exploration.","§5 C06")
+TEXT["C03"]=("For rapid-drawn route shapes every RPC is exercised with all URL-bound fields non-default; the Go client's and the TS client's concrete request lines, the Go server's routing decision and the URL-carried field values its handler sees, the TS server's route table and the OpenAPI operation are compared pairwise. Exploration.","§5 C03")
 TEXT["C07"]=("Values captured from the generated Go server, contract-form requests and the arguments the generated TS server hands to handlers are checked for structural membership in the types the emitted .ts files declare (parsed by a reader of the emitted subset); ts-client and ts-server declarations are compared. Exploration; type-checking proper is impossible offline.","§5 C07")
 TEXT["C08"]=("The emitted .ts modules are imported in Node 22 and driven through a long-lived driver: TS client -> Go server, Go client -> TS server and TS client -> TS server calls over loopback HTTP with drawn requests, responses and header options must deliver request and response unchanged. Exploration.","§5 C08")
 NOTE={
